@@ -31,6 +31,7 @@
   `minmaxNanT` (an RDM with a NaN becomes all-NaN), `geotopNanStack` (one NaN anywhere makes both
   thresholds NaN: the whole stack becomes NaN), `geodesicStack` (`none` = the call raises
   `ValueError` from `squareform`: some RDM is constant or has a NaN).
+  Reuse sessions (`sessRun`): a store of objects; transforms append, comparisons read.
   No Mathlib here.
 -/
 import Rsa.Core.Num
@@ -369,5 +370,45 @@ def passesDescriptors (k : Kind) : Bool := Rsa.Gen.C17.descrPass k.code == 1
 def applyT {V W D R P : Type} (k : Kind) (f : V → W) (r : RDMs V D R P) : RDMs W D R P :=
   { vecs := f r.vecs, measure := newMeasure k r.measure,
     descr := r.descr, rdmDescr := r.rdmDescr, patDescr := r.patDescr }
+
+/-! ## 7. reuse sessions: one object goes through several transforms and comparisons
+
+    `compare(...)` and every transform are value-returning: a session is a store of objects to which
+    a transform *appends* its result and of which a comparison only *reads*.  (What the property
+    demands of the code: no step may change an object that is already there.) -/
+
+/-- one step: transform object number `src` with `f`, or compare objects `a` and `b` with `m` -/
+inductive Step (Obj Val : Type) where
+  | tf (src : Nat) (f : Obj → Obj)
+  | cmp (a b : Nat) (m : Obj → Obj → Val)
+
+/-- what a step returns to the caller (`bad`: it refers to an object that does not exist) -/
+inductive Out (Obj Val : Type) where
+  | obj (o : Obj)
+  | val (v : Val)
+  | bad
+
+/-- the objects a step refers to -/
+def Step.refs {Obj Val : Type} : Step Obj Val → List Nat
+  | .tf src _ => [src]
+  | .cmp a b _ => [a, b]
+
+def sessStep {Obj Val : Type} (st : List Obj) : Step Obj Val → List Obj × Out Obj Val
+  | .tf src f =>
+    match st[src]? with
+    | some o => (st ++ [f o], .obj (f o))
+    | none => (st, .bad)
+  | .cmp a b m =>
+    match st[a]?, st[b]? with
+    | some x, some y => (st, .val (m x y))
+    | _, _ => (st, .bad)
+
+/-- the store after a list of steps and what each step returned -/
+def sessRun {Obj Val : Type} : List Obj → List (Step Obj Val) → List Obj × List (Out Obj Val)
+  | st, [] => (st, [])
+  | st, s :: rest =>
+    let r := sessStep st s
+    let rr := sessRun r.1 rest
+    (rr.1, r.2 :: rr.2)
 
 end Rsa.Transform
